@@ -127,7 +127,7 @@ theorem dec_settle {c : Cfg} (hc : Plain c) {pick : List Nat → Option Nat} (hp
       · exact Dec.of_eq rfl (Nat.le_refl _)
   | succ fuel ih =>
     intro s
-    simp only [settle]
+    simp only [settle, giveUp_eq hc.toRetrying]
     cases hr : s.retries with
     | nil => exact Dec.refl s
     | cons inp rest =>
@@ -179,6 +179,7 @@ theorem nextInputs_measure (s : St) :
 theorem dec_tryEnqueue {c : Cfg} (hc : Plain c) {pick : List Nat → Option Nat} (hp : PickOK pick)
     (s : St) (w : Nat) (hw : w < s.ws.length) : Dec s (tryEnqueue c pick s w).1 := by
   unfold tryEnqueue
+  simp only [giveUp_eq hc.toRetrying]
   have hm := nextInputs_measure s
   have hlen : (nextInputs s).2.ws.length = s.ws.length := by
     unfold nextInputs
